@@ -8,11 +8,14 @@ compared with the paths read off the ``ObserverGraph`` objects returned by
 ``compile_str``.  Further laws: rejection is by ``ValueError`` only; re-parsing
 after lru-cache eviction gives ``==`` objects with equal hashes; whitespace and
 redundant-bracket respellings compile to ``==`` graphs; registration by one
-spelling is removed by another on a live object (notifier census restored).
+spelling is removed by another on a live object (notifier census restored);
+a text keeps its denotation while it is used, together with expression objects,
+in the list forms of observe / @observe / Property(observe=...) (workload g).
 See DESIGN.md section 4 / C15.
 """
 from collections import Counter
 from functools import lru_cache
+import itertools
 
 from traits.api import HasTraits, Instance, List, Dict, Set, Str, Int
 from traits.observation import api as oapi
@@ -42,7 +45,22 @@ META = {
              "documented selection computed from the declaration table (a value was given and is not "
              "None), again after add_trait on targets and non-targets and after a new list item, then "
              "removal by a respelling (census restored, silence); metadata names spelt __like_this__ "
-             "form their own stratum. "
+             "form their own stratum; "
+             "(g) the list forms accepted by HasTraits.observe, the @observe decorator and "
+             "Property(observe=...): lists of 1-4 elements, each a text (any spelling) or an expression "
+             "object (parse(text), or the same pattern built with trait()/metadata()/anytrait()/"
+             "*_items()/then()/|), all-text, all-expression and mixed, in every order (quick: <= 6 orders "
+             "of a 4-list), an element given twice in a quarter of the uses, each list used through all "
+             "three routes on live classes (observe: registered 1-3 times and removed as a list, removed "
+             "piece by piece through respellings, registered piece by piece and removed as a list, with "
+             "notifier census and silence afterwards; decorator and Property on freshly made classes), "
+             "BETWEEN two evaluations of the denotation of every text involved and of its whitespace / "
+             "bracket respellings (compile_str paths == reference paths, graphs == the ones fetched "
+             "before, parse ==, compile_expr(parse) paths) and of every expression object; what the "
+             "handlers / the property receive when every value trait and every link trait of a depth-2 "
+             "object tree is assigned is compared with the reference paths interpreted on that tree; "
+             "the plain texts are also observed alone on a second fresh tree before and after (same "
+             "outcome, fires as denoted, removal by a respelling restores the census). "
              "distinct_nontrivial counts distinct signatures (rejected: the reference's reject reason; "
              "accepted: top-level width, bracket depth, leaf-count class, */+metadata/items present, "
              "bracket before a connector, connector kinds; respellings: part x variant kind x whether "
@@ -60,7 +78,14 @@ META = {
                   "meta_boolraises_fired": 250, "meta_added_before_fired": 700,
                   "meta_added_later_fired": 800, "meta_added_later_falsy_fired": 400,
                   "meta_new_item_fired": 1200, "meta_unselected_silent": 20000,
-                  "meta_removed_silent": 600, "meta_dunder_cases": 30},
+                  "meta_removed_silent": 600, "meta_dunder_cases": 30,
+                  "listform_cases": 240, "listform_uses": 2800, "listform_mixed_str_first": 800,
+                  "listform_mixed_expr_first": 1000, "listform_all_str": 400, "listform_all_expr": 450,
+                  "listform_rechecks": 7500, "listform_fired_matched": 2900,
+                  "listform_piecewise_removed": 1100, "listform_removed_silent": 1000,
+                  "listform_decorated_classes": 1000, "listform_property_classes": 750,
+                  "listform_repeated_element": 700, "listform_second_object_probes": 600,
+                  "listform_second_object_fired": 450},
         "thorough": {"evaluations": 40000000, "accepted": 1500000, "rejected": 36000000,
                      "tok_strings": 37000000, "shape_cases": 500000, "variants_checked": 1000000,
                      "random_accepted": 200000, "random_rejected": 400000,
@@ -71,7 +96,14 @@ META = {
                      "meta_boolraises_fired": 4000, "meta_added_before_fired": 11000,
                      "meta_added_later_fired": 13000, "meta_added_later_falsy_fired": 6500,
                      "meta_new_item_fired": 20000, "meta_unselected_silent": 330000,
-                     "meta_removed_silent": 10000, "meta_dunder_cases": 300},
+                     "meta_removed_silent": 10000, "meta_dunder_cases": 300,
+                     "listform_cases": 6000, "listform_uses": 125000, "listform_mixed_str_first": 37000,
+                     "listform_mixed_expr_first": 50000, "listform_all_str": 19000,
+                     "listform_all_expr": 17000, "listform_rechecks": 190000,
+                     "listform_fired_matched": 140000, "listform_piecewise_removed": 58000,
+                     "listform_removed_silent": 47000, "listform_decorated_classes": 47000,
+                     "listform_property_classes": 34000, "listform_repeated_element": 34000,
+                     "listform_second_object_probes": 15000, "listform_second_object_fired": 11000},
     },
     "exhaustive_parts": ("all token strings over {a,b,items,+,*,.,:,',',[,]} of length 1..6 (quick) / "
                          "1..8 (thorough): acceptance, exception class and denotation checked on every "
@@ -88,6 +120,10 @@ META = {
                     "'+name' selects the traits for which metadata `name` was given and is not None "
                     "(manual table; docstrings of metadata() and MetadataFilter); '*' selects every "
                     "trait; truthiness of the metadata value plays no role",
+                    "list forms: a list argument means the union of its elements (manual: 'a list of "
+                    "expressions'); only plain trait assignments on a tree-shaped object graph are "
+                    "judged, as sets of (object, trait) that reached the handler - never multiplicities; "
+                    "a Property whose own list would observe every root trait ('*' first) is not built",
                     "graph nodes are read through their public attributes (name, notify, optional, "
                     "filter.metadata_name) and classified by class name"],
     "case_timeout": 900,
@@ -1250,8 +1286,8 @@ _CLS = {"N": K, "M": K2}
 _NAMES = {}
 
 
-def build_live(typ, depth, registry):
-    cls = _CLS[typ]
+def build_live(typ, depth, registry, root_cls=None):
+    cls = root_cls or _CLS[typ]
     o = cls()
     registry.append(o)
     for name, t in LAYOUT[typ].items():
@@ -1851,6 +1887,631 @@ def part_meta(ctx, ck):
             ctx.end()
 
 
+# ===========================================================================
+# Workload (g): the list forms accepted by observe / @observe / Property(observe=)
+# ===========================================================================
+# A text keeps its meaning however it has been used: between two evaluations of
+# the denotation of every text involved (and of its respellings) the list forms
+# are exercised on live classes - mixed lists of texts and expression objects in
+# every order, repeated, registered / removed as a list or piece by piece.  What
+# the handlers receive is compared with a small interpretation of the *reference*
+# paths on the harness' own object tree (plain trait assignments only).
+class Unfit(Exception):
+    """the pattern does not fit the harness tree: behaviour not judged"""
+
+
+_LF_META = {"N": {"m": ("v", "w"), "a": ("w",)}, "M": {"m": ("v",)}}
+_LF_CONT = {"list_items": list, "dict_items": dict, "set_items": set}
+
+
+def _lf_typ(o):
+    return "N" if isinstance(o, K) else "M" if isinstance(o, K2) else None
+
+
+def model_fires(paths, root, serial):
+    """{(serial of object, trait name)}: the plain assignments that the reference
+    paths say must reach the handler, on the tree hanging off `root`."""
+    out = set()
+    for p in paths:
+        cur = [root]
+        for kind, arg, notify, opt in p:
+            nxt = []
+            for o in cur:
+                typ = _lf_typ(o)
+                want = _LF_CONT.get(kind)
+                if want is not None:
+                    if typ is not None or not isinstance(o, want):
+                        if not opt:
+                            raise Unfit()
+                        continue
+                    nxt.extend(o.values() if want is dict else o)
+                    continue
+                if typ is None:
+                    if kind == "trait" and opt:
+                        continue
+                    raise Unfit()
+                lay = LAYOUT[typ]
+                if kind == "trait":
+                    if arg not in lay:
+                        if not opt:
+                            raise Unfit()
+                        continue
+                    names = (arg,)
+                elif kind == "metadata":
+                    names = _LF_META[typ].get(arg, ())
+                elif kind == "anytrait":
+                    names = tuple(lay)
+                else:
+                    raise Unfit()
+                for nm in names:
+                    if notify:
+                        out.add((serial[id(o)], nm))
+                    v = getattr(o, nm)
+                    if isinstance(v, (HasTraits, list, dict, set)):
+                        nxt.append(v)
+            cur = nxt
+    return out
+
+
+def _lf_fresh(typ, name):
+    t = LAYOUT[typ][name]
+    if t == "N":
+        return K()
+    if t == "M":
+        return K2()
+    kid = _CLS[t[1]]()
+    tt = type(_CLS[typ].class_traits()[name].trait_type).__name__
+    return {"z": kid} if tt == "Dict" else {kid} if tt == "Set" else [kid]
+
+
+def lf_mutations(registry, links):
+    """Assign a new value to every value trait of every object (registry order);
+    with `links`, then replace every link / container trait, children before
+    parents (destroys the tree).  Yields (serial, trait name) after each."""
+    objs = [(i, o) for i, o in enumerate(registry) if isinstance(o, HasTraits)]
+    for i, o in objs:
+        o.v += 1
+        yield (i, "v")
+        if isinstance(o, K):
+            o.w += "x"
+            yield (i, "w")
+    if links:
+        for i, o in reversed(objs):
+            typ = _lf_typ(o)
+            for name, t in LAYOUT[typ].items():
+                if t != "V":
+                    setattr(o, name, _lf_fresh(typ, name))
+                    yield (i, name)
+
+
+def build_expr(ast):
+    """The pattern spelt with the expression functions instead of a text."""
+    def elem(e, nf):
+        t = e[0]
+        if t == "n":
+            return oapi.trait(e[1], notify=nf)
+        if t == "i":
+            return (oapi.trait("items", notify=nf, optional=True)
+                    | oapi.dict_items(notify=nf, optional=True)
+                    | oapi.list_items(notify=nf, optional=True)
+                    | oapi.set_items(notify=nf, optional=True))
+        if t == "m":
+            return oapi.metadata(e[1], notify=nf)
+        if t == "*":
+            return oapi.anytrait(notify=nf)
+        return par(e[1], nf)
+
+    def ser(series, notify):
+        out = None
+        for e, c in series:
+            x = elem(e, notify if c is None else c == ".")
+            out = x if out is None else out.then(x)
+        return out
+
+    def par(p, notify):
+        out = None
+        for s in p:
+            x = ser(s, notify)
+            out = x if out is None else out | x
+        return out
+    return par(ast, True)
+
+
+def _lf_spelling(ast, rng):
+    r = rng.random()
+    if r < 0.4:
+        return render(ast)
+    if r < 0.75:
+        return render_ws(ast_tokens(ast), rng, rng.choice(WS_KIND_NAMES + ["ws-edges"]))
+    v = bracket_variant(ast, rng, rng.choice(BR_KINDS))
+    return render(v if v is not None else ast)
+
+
+class _Elem:
+    """One element of a list argument: a text or an expression object."""
+    __slots__ = ("ast", "kind", "arg", "text", "paths", "alt")
+
+
+def _lf_elements(ck, rng):
+    cls = rng.choice(["all-str", "all-expr", "mixed", "mixed", "mixed", "mixed"])
+    k = rng.choice([1, 2, 2, 3, 3, 4]) if cls != "mixed" else rng.choice([2, 2, 3, 3, 4])
+    kinds = []
+    for i in range(k):
+        if cls == "all-str" or (cls == "mixed" and i == 0):
+            kinds.append("str")
+        elif cls == "all-expr" or (cls == "mixed" and i == 1):
+            kinds.append(rng.choice(["expr-built", "expr-built", "expr-parsed"]))
+        else:
+            kinds.append(rng.choice(["str", "expr-built", "expr-parsed"]))
+    elems = []
+    for kind in kinds:
+        for _ in range(30):
+            if rng.random() < 0.35:
+                nm = rng.choice(["v", "w", "a", "b", "xs", "d", "st"])
+                ast = (((("n", nm), None),),)
+            else:
+                ast = live_expression(rng)
+            if not has_dup_siblings(ast):
+                break
+        else:
+            return None
+        e = _Elem()
+        e.ast = ast
+        e.kind = kind
+        e.text = _lf_spelling(ast, rng)
+        e.paths = ref_paths(ast)
+        if kind == "str":
+            e.arg = e.text
+            e.alt = rng.choice([_lf_spelling(ast, rng), "expr"])
+        else:
+            e.alt = _lf_spelling(ast, rng)
+        elems.append(e)
+    return elems
+
+
+def _lf_class(lst_elems):
+    ks = [e.kind == "str" for e in lst_elems]
+    if all(ks):
+        return "all-str"
+    if not any(ks):
+        return "all-expr"
+    return "mixed-str-first" if ks[0] else "mixed-expr-first"
+
+
+_LF_MODES = ["list/list", "list/piecewise", "piecewise/list"]
+_LF_STATE = {"corrupted": False}
+
+
+def listform_case(ctx, ck, rng, c):
+    n = ck.n
+    elems = _lf_elements(ck, rng)
+    if elems is None:
+        return
+    # -- the texts involved, their respellings; denotations before ------------
+    texts = []
+    for e in elems:
+        for s in (e.text, render(e.ast), e.alt if e.alt != "expr" else None,
+                  render_ws(ast_tokens(e.ast), rng, "ws-mixed")):
+            if s is not None and s not in texts:
+                texts.append(s)
+        bv = bracket_variant(e.ast, rng, rng.choice(BR_KINDS))
+        if bv is not None and render(bv) not in texts:
+            texts.append(render(bv))
+    if _LF_STATE["corrupted"]:
+        # an earlier case of this process reported that the list forms corrupt the
+        # process-wide compilation caches: texts already corrupted are not reported
+        # again under derived keys
+        for s in texts:
+            try:
+                clean = impl_paths(oapi.compile_str(s)) == ref_paths(ref_parse(s))
+            except Exception:  # noqa: BLE001
+                clean = False
+            if not clean:
+                n["listform_skipped_after_corruption"] += 1
+                return
+    before = []
+    for s in texts:
+        r = ck.check(s, "listform")
+        if r is None:
+            return
+        if len(r) == 1:
+            raise AssertionError("oracle bug: derivation %r rejected by reference" % s)
+        before.append((s, r, list(r[2]), [hash(g) for g in r[2]], hash(r[1])))
+    # expression objects are made only now, from texts / functions already checked
+    try:
+        for e in elems:
+            if e.kind == "expr-built":
+                e.arg = build_expr(e.ast)
+            elif e.kind == "expr-parsed":
+                e.arg = oapi.parse(e.text)
+            if e.alt == "expr":
+                e.alt = build_expr(e.ast)
+        exprs = [(e, impl_paths(oapi.compile_expr(e.arg))) for e in elems if e.kind != "str"]
+    except Exception as ex:  # noqa: BLE001 - the expression functions are not this property's subject
+        n["listform_expression_unbuildable"] += 1
+        ck.sig("listform", "unbuildable", type(ex).__name__)
+        return
+    n["listform_cases"] += 1
+    n["evaluations"] += 1
+
+    def recheck(via):
+        for s, r, snap, hsnap, hexpr in before:
+            n["listform_rechecks"] += 1
+            what = None
+            try:
+                g2 = oapi.compile_str(s)
+                e2 = oapi.parse(s)
+                if impl_paths(g2) != r[3]:
+                    what = "compile_str-paths"
+                elif list(g2) != snap or [hash(g) for g in g2] != hsnap:
+                    what = "compile_str-graphs-unequal"
+                elif impl_paths(r[2]) != r[3] or list(r[2]) != snap:
+                    what = "held-graphs-mutated"
+                elif not (e2 == r[1]) or hash(e2) != hexpr:
+                    what = "parse-unequal"
+                elif impl_paths(oapi.compile_expr(e2)) != r[3]:
+                    what = "compile_expr-of-parse-paths"
+            except Exception as ex:  # noqa: BLE001
+                what = "raises-" + type(ex).__name__
+            if what:
+                got = None
+                try:
+                    got = fmt_paths(impl_paths(oapi.compile_str(s)))
+                except Exception:  # noqa: BLE001
+                    pass
+                ctx.violation("listform/text-denotation-changed/%s/%s" % (via, what),
+                              "after the list %s was used through %s, the text %r no longer denotes "
+                              "what it denoted before (%s): reference paths %s, now %s"
+                              % (describe(elems), via, s, what, fmt_paths(r[3]), got),
+                              {"text": s, "list": describe(elems), "via": via, "what": what,
+                               "reference_paths": fmt_paths(r[3]), "now": got})
+                return False
+        for e, paths in exprs:
+            n["listform_rechecks"] += 1
+            try:
+                same = impl_paths(oapi.compile_expr(e.arg)) == paths
+            except Exception:  # noqa: BLE001
+                same = False
+            if not same:
+                ctx.violation("listform/expression-denotation-changed/%s" % via,
+                              "after the list %s was used through %s, the expression object spelt %r "
+                              "compiles to other paths than before" % (describe(elems), via, render(e.ast)),
+                              {"list": describe(elems), "via": via, "expression": render(e.ast)})
+                return False
+        return True
+
+    def describe(es):
+        return [("%r" % e.text) if e.kind == "str" else "<%s %s>" % (e.kind, render(e.ast)) for e in es]
+
+    # -- behaviour of the plain texts on an object of their own ----------------
+    probe_texts = [e.text for e in elems][:2]
+    if len(elems) > 1 and elems[-1].text not in probe_texts:
+        probe_texts.append(elems[-1].text)
+
+    def second_object(s, paths, alt):
+        """observe(h, s) on a fresh tree; outcome class + what fired"""
+        registry = []
+        root = build_live("N", 2, registry)
+        serial = {id(o): i for i, o in enumerate(registry)}
+        fired = set()
+
+        def h(event):
+            if type(event).__name__ == "TraitChangeEvent":
+                fired.add((serial.get(id(event.object)), event.name))
+        c0 = census(registry)
+        try:
+            root.observe(h, s)
+        except Exception as ex:  # noqa: BLE001
+            return ("raises", type(ex).__name__)
+        try:
+            want = _lf_values_only(model_fires(paths, root, serial))
+        except Unfit:
+            want = None
+        for _ in lf_mutations(registry, False):
+            pass
+        got = set(fired)
+        try:
+            root.observe(h, alt, remove=True)
+        except Exception as ex:  # noqa: BLE001
+            return ("remove-raises", type(ex).__name__)
+        left = census(registry) != c0
+        fired.clear()
+        for _ in lf_mutations(registry, True):
+            pass
+        return ("ok", got, want, left, bool(fired))
+
+    def judge_second(s, out, when):
+        """absolute part: the text behaves as its denotation says"""
+        if out[0] != "ok":
+            return True
+        _, got, want, left, noisy = out
+        if want is not None and got != want:
+            kind = "fires-more" if got - want and not want - got else \
+                "fires-less" if want - got and not got - want else "fires-otherwise"
+            ctx.violation("listform/text-behaviour/%s/%s" % (when, kind),
+                          "observe(h, %r) on a fresh object tree (%s the list workloads): handler reached "
+                          "by %s, the denotation says %s" % (s, when, sorted(got - want)[:5] or "-",
+                                                             sorted(want - got)[:5] or "-"),
+                          {"text": s, "when": when, "extra": sorted(got - want)[:10],
+                           "missing": sorted(want - got)[:10], "list": describe(elems)})
+            return False
+        if left or noisy:
+            ctx.violation("listform/text-behaviour/%s/%s" % (when, "notifiers-left" if left else "fires-after-removal"),
+                          "observe(h, %r) then removal by a respelling on a fresh object tree (%s the list "
+                          "workloads) leaves the handler connected" % (s, when),
+                          {"text": s, "when": when, "list": describe(elems)})
+            return False
+        if want:
+            n["listform_second_object_fired"] += 1
+        return True
+
+    second = []
+    for s in probe_texts:
+        e = [x for x in elems if x.text == s][0]
+        alt = e.alt if isinstance(e.alt, str) else render(e.ast)
+        out = second_object(s, e.paths, alt)
+        n["listform_second_object_probes"] += 1
+        if not judge_second(s, out, "before"):
+            return
+        second.append((s, e, alt, out))
+
+    # -- the list forms ---------------------------------------------------------
+    k = len(elems)
+    perms = list(itertools.permutations(range(k)))
+    if len(perms) > ctx.scale(6, 24):
+        perms = rng.sample(perms, 6)
+    star_at_root = any(p[0][0] == "anytrait" for e in elems for p in e.paths)
+    vias = ["observe-call", "observe-decorator", "property-observe"]
+    vias = vias[c % 3:] + vias[:c % 3]
+    run_no = 0
+    for via in vias:
+        for perm in perms:
+            es = [elems[i] for i in perm]
+            if rng.random() < 0.25:
+                es = es + [rng.choice(es)]          # an element given twice
+                n["listform_repeated_element"] += 1
+            lst = [e.arg for e in es]
+            lclass = _lf_class(es)
+            run_no += 1
+            if via == "observe-call":
+                mode = _LF_MODES[(c + run_no) % 3]
+                ok = _lf_call(ctx, ck, rng, es, lst, lclass, mode, describe)
+            elif via == "observe-decorator":
+                ok = _lf_decorated(ctx, ck, rng, es, lst, lclass, describe)
+            else:
+                if star_at_root:
+                    n["listform_property_skipped_star_at_root"] += 1
+                    continue
+                ok = _lf_property(ctx, ck, rng, es, lst, lclass, describe)
+            if ok is False:
+                return
+            if ok:
+                n["listform_" + lclass.replace("-", "_")] += 1
+                n["listform_uses"] += 1
+                ck.sig("listform", via, lclass, min(len(es), 4), ok)
+        if not recheck(via):
+            return
+    # -- the same texts on another fresh object, afterwards --------------------
+    for s, e, alt, out0 in second:
+        out = second_object(s, e.paths, alt)
+        if out[:1] != out0[:1] or (out[0] != "ok" and out != out0):
+            ctx.violation("listform/text-behaviour-changed/%s-then-%s" % (out0[0], out[0]),
+                          "observe(h, %r) on a fresh object tree: %s before the list workloads, %s after"
+                          % (s, out0[:2] if out0[0] != "ok" else "ok", out[:2] if out[0] != "ok" else "ok"),
+                          {"text": s, "list": describe(elems)})
+            return
+        if out[0] == "ok" and out[1] != out0[1]:
+            kind = "fires-more" if out[1] - out0[1] else "fires-less"
+            ctx.violation("listform/text-behaviour-changed/" + kind,
+                          "observe(h, %r) on a fresh object tree reaches the handler from other traits "
+                          "after the list workloads than before: extra %s, missing %s"
+                          % (s, sorted(out[1] - out0[1])[:5], sorted(out0[1] - out[1])[:5]),
+                          {"text": s, "list": describe(elems)})
+            return
+        if not judge_second(s, out, "after"):
+            return
+    ck.sample("listform", {"part": "list-forms", "list": describe(elems), "texts_rechecked": texts[:6]})
+
+
+def _lf_values_only(want):
+    """the part of an expectation that lf_mutations(.., links=False) exercises"""
+    return {x for x in want if x[1] in ("v", "w")}
+
+
+def _lf_union(es, root, serial):
+    want = set()
+    for e in es:
+        want |= model_fires(e.paths, root, serial)
+    return want
+
+
+def _lf_mismatch(ctx, via, mode, describe, es, got, want, step):
+    kind = "fires-more" if got - want and not want - got else \
+        "fires-less" if want - got and not got - want else "fires-otherwise"
+    ctx.violation("listform/%s/%s/%s" % (via, step, kind),
+                  "list %s through %s (%s), %s: handler reached by %s beyond, and not by %s of, what the "
+                  "elements denote" % (describe(es), via, mode, step, sorted(got - want)[:5] or "-",
+                                       sorted(want - got)[:5] or "-"),
+                  {"list": describe(es), "via": via, "mode": mode, "step": step,
+                   "extra": sorted(got - want)[:10], "missing": sorted(want - got)[:10]})
+    return False
+
+
+def _lf_call(ctx, ck, rng, es, lst, lclass, mode, describe):
+    """HasTraits.observe with a list.  Returns False after a violation, None when
+    not judged, else the mode."""
+    n = ck.n
+    registry = []
+    root = build_live("N", 2, registry)
+    serial = {id(o): i for i, o in enumerate(registry)}
+    fired = set()
+
+    def h(event):
+        if type(event).__name__ == "TraitChangeEvent":
+            fired.add((serial.get(id(event.object)), event.name))
+
+    def probe(links=False):
+        fired.clear()
+        for _ in lf_mutations(registry, links):
+            pass
+        return set(fired)
+    try:
+        wants = [model_fires(e.paths, root, serial) for e in es]
+    except Unfit:
+        wants = None
+    c0 = census(registry)
+    reps = rng.choice([1, 1, 2, 3]) if mode == "list/list" else 1
+
+    try:
+        if mode == "piecewise/list":
+            for e in es:
+                root.observe(h, e.arg if rng.random() < 0.5 else e.alt)
+        else:
+            for _ in range(reps):
+                root.observe(h, lst)
+    except Exception as ex:  # noqa: BLE001 - does not fit the tree: not judged here
+        n["listform_observe_failed"] += 1
+        ck.sig("listform", "observe-failed", type(ex).__name__)
+        return None
+    n["listform_observe_calls"] += 1
+    if census(registry) != c0:
+        n["listform_attached"] += 1
+    if wants is not None:
+        got = probe()
+        want = _lf_values_only(set().union(*wants))
+        if got != want:
+            return _lf_mismatch(ctx, "observe-call", mode, describe, es, got, want, "registered")
+        if want:
+            n["listform_fired_matched"] += 1
+    try:
+        if mode == "list/piecewise":
+            order = list(range(len(es)))
+            rng.shuffle(order)
+            for j, i in enumerate(order):
+                root.observe(h, es[i].alt, remove=True)
+                n["listform_piecewise_removed"] += 1
+                if wants is not None and j < len(order) - 1:
+                    got = probe()
+                    want = _lf_values_only(set().union(*[wants[q] for q in order[j + 1:]]))
+                    if got != want:
+                        return _lf_mismatch(ctx, "observe-call", mode, describe, es, got, want,
+                                            "partly-removed")
+                    if want:
+                        n["listform_fired_matched"] += 1
+        else:
+            if mode == "list/list" and wants is not None:
+                got = probe(True)           # link traits too; the tree is used up
+                want = set().union(*wants)
+                if got != want:
+                    return _lf_mismatch(ctx, "observe-call", mode, describe, es, got, want,
+                                        "registered-links")
+            for _ in range(reps):
+                root.observe(h, lst, remove=True)
+    except Exception as ex:  # noqa: BLE001
+        ctx.violation("listform/observe-call/remove-failed/%s/%s" % (mode, type(ex).__name__),
+                      "list %s registered and removed %s: removal raised %r" % (describe(es), mode, ex),
+                      {"list": describe(es), "mode": mode})
+        return False
+    c2 = census(registry)
+    if c2 != c0:
+        left = [x for x in c2 if x not in c0]
+        ctx.violation("listform/observe-call/census-not-restored/" + mode,
+                      "list %s registered and removed %s: notifiers left %r" % (describe(es), mode, left[:6]),
+                      {"list": describe(es), "mode": mode, "left": left[:10]})
+        return False
+    if probe(mode != "list/list"):
+        ctx.violation("listform/observe-call/handler-still-called/" + mode,
+                      "list %s registered and removed %s: the handler still fires" % (describe(es), mode),
+                      {"list": describe(es), "mode": mode})
+        return False
+    n["listform_removed_silent"] += 1
+    return mode
+
+
+def _lf_decorated(ctx, ck, rng, es, lst, lclass, describe):
+    """@observe(list) on a method of a new class."""
+    from traits.api import observe as observe_decorator
+    n = ck.n
+    fired = set()
+    serial = {}
+
+    def hook(self, event):
+        if type(event).__name__ == "TraitChangeEvent":
+            fired.add((serial.get(id(event.object)), event.name))
+    try:
+        cls = type("Decorated", (K,), {"_hook": observe_decorator(lst, post_init=rng.random() < 0.3)(hook)})
+        registry = []
+        root = build_live("N", 2, registry, cls)
+    except Exception as ex:  # noqa: BLE001
+        n["listform_observe_failed"] += 1
+        ck.sig("listform", "decorated-failed", type(ex).__name__)
+        return None
+    serial.update((id(o), i) for i, o in enumerate(registry))
+    n["listform_decorated_classes"] += 1
+    try:
+        want = _lf_union(es, root, serial)
+    except Unfit:
+        return "decorated-unjudged"
+    fired.clear()
+    for _ in lf_mutations(registry, True):
+        pass
+    got = set(fired)
+    if got != want:
+        return _lf_mismatch(ctx, "observe-decorator", "class", describe, es, got, want, "registered")
+    if want:
+        n["listform_fired_matched"] += 1
+    return "decorated"
+
+
+def _lf_property(ctx, ck, rng, es, lst, lclass, describe):
+    """Property(observe=list) on a new class: the property changes iff an observed trait does."""
+    from traits.api import Property
+    n = ck.n
+    try:
+        cls = type("WithProperty", (K,), {"p": Property(Int, observe=lst), "_get_p": lambda self: 0})
+        registry = []
+        root = build_live("N", 2, registry, cls)
+    except Exception as ex:  # noqa: BLE001
+        n["listform_observe_failed"] += 1
+        ck.sig("listform", "property-failed", type(ex).__name__)
+        return None
+    serial = {id(o): i for i, o in enumerate(registry)}
+    n["listform_property_classes"] += 1
+    try:
+        want = _lf_union(es, root, serial)
+    except Unfit:
+        return "property-unjudged"
+    hits = []
+    root.on_trait_change(lambda: hits.append(1), "p")
+    got = set()
+    for key in lf_mutations(registry, True):
+        if hits:
+            got.add(key)
+            del hits[:]
+    if got != want:
+        return _lf_mismatch(ctx, "property-observe", "class", describe, es, got, want, "registered")
+    if want:
+        n["listform_fired_matched"] += 1
+    return "property"
+
+
+def part_listforms(ctx, ck):
+    ncases = ctx.scale(480, 12000)
+    for c in range(ncases):
+        if not ctx.mine(c):
+            continue
+        if not ctx.begin("listform:%d" % c):
+            continue
+        nv = ctx.nviol
+        try:
+            listform_case(ctx, ck, ctx.rng("listform", c), c)
+            if ctx.nviol > nv:
+                _LF_STATE["corrupted"] = True
+        finally:
+            ck.flush()
+            ctx.end()
+
+
 def run(ctx):
     ck = Checker(ctx)
     part_meta(ctx, ck)
@@ -1859,4 +2520,5 @@ def run(ctx):
     part_shapes(ctx, ck)
     part_random(ctx, ck)
     part_tokens(ctx, ck)
+    part_listforms(ctx, ck)
     ck.flush()
